@@ -293,33 +293,22 @@ e4lib.register_judge('c16_radar', judge_radar)
 
 # ---------------------------------------------------------------------------------------------
 def reference_blocks(fd):
-    """run the real 1090 once on each valid line alone -> rendering block per payload (self-differential)"""
-    import e4drv
-    steps = []
-    lines = fd.L + [fd.sent]
+    """what 1090 has to print after the echo of each valid line: the library's own text rendering of that frame
+    (`vh render`: real decoder + Display; C11 judges the rendering itself). Taking the blocks from a run of the subject
+    instead would turn a 1090 that echoes or renders nothing into a machinery error instead of a violation."""
+    import subprocess
     pay = fd.payload + [fd.sent_payload]
-    for i, l in enumerate(lines):
-        if i:
-            steps.append({'op': 'gap'})
-        steps.append({'op': 'send', 'hex': hexs(l)})
-    steps += [{'op': 'gap'}, {'op': 'send', 'hex': hexs(b'*5dab3d17d4ba29;\n')}, {'op': 'expect', 'line': '5dab3d17d4ba29', 'after': 1}]
-    obs = e4drv.run_1090({'binary': '1090', 'argv': [], 'steps': steps})
-    out = obs['stdout']
-    idx = []
-    for p in pay + ['5dab3d17d4ba29']:
-        if out.count(p) != 1:
-            raise e4lib.Machinery('1090 reference run: payload %s echoed %d times: %r' % (p, out.count(p), out[:40]))
-        idx.append(out.index(p))
-    if idx != sorted(idx):
-        raise e4lib.Machinery('1090 reference run: echoes out of order')
+    r = subprocess.run([e4lib.VH, 'render'], input=('\n'.join(pay) + '\n').encode(), stdout=subprocess.PIPE, stderr=subprocess.PIPE, timeout=30)
+    if r.returncode != 0:
+        raise e4lib.Machinery('vh render failed: %s' % r.stderr.decode('utf-8', 'replace')[-300:])
+    tbl = json.loads(r.stdout.decode())
     fd.blocks = {}
     fd.block_len = {}
-    for k, p in enumerate(pay):
-        blk = out[idx[k] + 1:idx[k + 1]]
-        if not blk:
-            raise e4lib.Machinery('1090 reference run: no rendering for %s' % p)
-        fd.blocks[p] = blk
-        fd.block_len[p] = 1 + len(blk)
+    for p in pay:
+        if not tbl.get(p, {}).get('ok') or not tbl[p]['lines']:
+            raise e4lib.Machinery('vh render: feed payload %s does not decode / render: %r' % (p, tbl.get(p)))
+        fd.blocks[p] = tbl[p]['lines']
+        fd.block_len[p] = 1 + len(tbl[p]['lines'])
 
 
 def split_at(data, cuts):
